@@ -10,6 +10,10 @@ Definition P : Type := (Z * Z)%type.       (* (key, value) *)
 
 Inductive repl := RpOne | RpHost | RpUnlimited | RpLimited (n : Z).
 
+Inductive jvar := JvInner | JvLeft | JvOuter.
+Inductive jship := ShHash | ShBroadcast.
+Inductive jlocal := LoHash | LoSortMerge.
+
 Inductive op1 :=
 | OMapAdd (c : Z)             (* (k, v) -> (k, v + c) *)
 | OSetKey (m : Z)             (* (k, v) -> (v mod m, v) *)
@@ -24,11 +28,11 @@ Inductive op1 :=
 | OFoldSum | OFoldAssocSum | OReduceMax | OReduceAssocMax
 | OAddState                   (* inside a loop body: (k, v) -> (k, v + state); outside: identity with state 0 *)
 | ONested (n limit : Z) (body : list op1)    (* a replay loop nested in a loop body; its own state starts at 0 *)
-| ONestedO (n limit : Z) (body : list op1).  (* as ONested, but the ops of the body read the ENCLOSING state *)
-
-Inductive jvar := JvInner | JvLeft | JvOuter.
-Inductive jship := ShHash | ShBroadcast.
-Inductive jlocal := LoHash | LoSortMerge.
+| ONestedO (n limit : Z) (body : list op1)   (* as ONested, but the ops of the body read the ENCLOSING state *)
+| OJoinSide (v : jvar) (lo : jlocal) (side : list P).
+    (* hash-shipped join of the current stream (left) with the constant list [side] (right): a
+       stream defined outside the loop and joined inside the body; it is cached and replayed
+       every round *)
 
 Inductive pipe :=
 | PSrc (par : bool) (xs : list P)
@@ -50,6 +54,23 @@ Definition zsum (l : list Z) := fold_left Z.add l 0.
 Definition zmax (l : list Z) := match l with [] => 0 | x :: l' => fold_left Z.max l' x end.
 Definition zmin (l : list Z) := match l with [] => 0 | x :: l' => fold_left Z.min l' x end.
 Definition pmax (a b : P) : P := (Z.max (fst a) (fst b), Z.max (snd a) (snd b)).
+
+(** value of a joined pair: an (injective enough) deterministic mix of both sides *)
+Definition jmix (l r : option Z) : Z :=
+  let e o := match o with Some z => z + 1 | None => 0 end in
+  Z.modulo (e l * 1009 + e r) 1000003.
+
+Definition ev_join (v : jvar) (ls rs : list P) : list P :=
+  flat_map (fun l =>
+    match filter (fun r => Z.eqb (fst r) (fst l)) rs with
+    | [] => match v with JvInner => [] | _ => [(fst l, jmix (Some (snd l)) None)] end
+    | ms => map (fun r => (fst l, jmix (Some (snd l)) (Some (snd r)))) ms
+    end) ls
+  ++ match v with
+     | JvOuter => flat_map (fun r => if existsb (fun l => Z.eqb (fst l) (fst r)) ls then []
+                                     else [(fst r, jmix None (Some (snd r)))]) rs
+     | _ => []
+     end.
 
 Fixpoint ev1 (state : Z) (o : op1) (xs : list P) {struct o} : list P :=
   match o with
@@ -91,26 +112,10 @@ Fixpoint ev1 (state : Z) (o : op1) (xs : list P) {struct o} : list P :=
                          if (st1 <? limit) && (k + 1 <? n) then loop f (k + 1) st1 else st1
                      end) in
       [(0, loop (Z.to_nat (Z.max n 1)) 0 0)]
+  | OJoinSide v _ side => ev_join v xs side
   end.
 Definition ev_ops (state : Z) (os : list op1) (xs : list P) : list P :=
   fold_left (fun acc o => ev1 state o acc) os xs.
-
-(** value of a joined pair: an (injective enough) deterministic mix of both sides *)
-Definition jmix (l r : option Z) : Z :=
-  let e o := match o with Some z => z + 1 | None => 0 end in
-  Z.modulo (e l * 1009 + e r) 1000003.
-
-Definition ev_join (v : jvar) (ls rs : list P) : list P :=
-  flat_map (fun l =>
-    match filter (fun r => Z.eqb (fst r) (fst l)) rs with
-    | [] => match v with JvInner => [] | _ => [(fst l, jmix (Some (snd l)) None)] end
-    | ms => map (fun r => (fst l, jmix (Some (snd l)) (Some (snd r)))) ms
-    end) ls
-  ++ match v with
-     | JvOuter => flat_map (fun r => if existsb (fun l => Z.eqb (fst l) (fst r)) ls then []
-                                     else [(fst r, jmix None (Some (snd r)))]) rs
-     | _ => []
-     end.
 
 (** loops: state_k = state_(k-1) + sum of the values the body produced in round k; the loop
     continues while state_k < limit and k < n; at least one round always runs *)
